@@ -7,6 +7,8 @@ def run(ctx):
     # the receive-credit ledger of the design model (Ops flag "credit"): holds as written, and not when dropped frames go uncounted
     ctx.model_expect_violation('H2Server', 'H2Server_c14_bad.cfg', 'C14_ConnCredit', workers=2)
     ctx.model_expect_violation('H2Server', 'H2Server_c14_bad2.cfg', 'C14_StreamCredit', workers=2)
+    ctx.model_expect_violation('H2Client', 'H2Client_c14_bad.cfg', 'C14_ConnCredit', workers=2)
+    ctx.model_expect_violation('H2Client', 'H2Client_c14_bad2.cfg', 'C14_StreamCredit', workers=2)
     srvprop.run(ctx, 'C14')
     cliprop.run(ctx, 'C14', id_offset=1000000)
 
